@@ -1,3 +1,4 @@
+pub mod entropy;
 pub mod queues;
 pub mod runloop;
 pub mod world;
@@ -83,6 +84,18 @@ pub fn run_one(engine: &str, seed: u64, ctx: &mut Ctx) -> OneResult {
                 sample,
             }
         }
+        "entropy-c12" | "entropy-c13" => {
+            let prop = if engine == "entropy-c12" { "C12" } else { "C13" };
+            let sc = entropy::generate(seed, prop, ctx.tier == "thorough");
+            let ex = entropy::execute(&sc, &ctx.names);
+            let scv = if ex.violations.is_empty() { Value::Null } else { serde_json::to_value(&sc).unwrap() };
+            OneResult {
+                violations: ex.violations.into_iter().map(|v| (v, scv.clone())).collect(),
+                sample: serde_json::json!({"case": sc.case, "streams": sc.streams, "p_extreme": sc.p_extreme, "p_repeat": sc.p_repeat}),
+                stats: ex.stats,
+                counts: vec![],
+            }
+        }
         "queues-enum" => {
             // `seed` is ignored: the run index enumerates the space (see main.rs)
             let sc = queues::enumerate(ctx.cur_index);
@@ -126,6 +139,10 @@ pub fn replay_one(engine: &str, scenario: &Value, ctx: &mut Ctx) -> Vec<Violatio
             let sc: queues::QueueSc = serde_json::from_value(scenario.clone()).expect("queues scenario");
             queues::execute(&sc, &mut ctx.iset, &ctx.names).0
         }
+        "entropy-c12" | "entropy-c13" => {
+            let sc: entropy::EntropySc = serde_json::from_value(scenario.clone()).expect("entropy scenario");
+            entropy::execute(&sc, &ctx.names).violations
+        }
         _ => panic!("unknown engine {}", engine),
     }
 }
@@ -136,6 +153,8 @@ pub fn scenario_of(engine: &str, seed: u64, ctx: &mut Ctx) -> Value {
         "runloop" => serde_json::to_value(runloop::generate(seed, &ctx.names)).unwrap(),
         "queues" => serde_json::to_value(queues::generate(seed, &ctx.names, ctx.tier == "thorough")).unwrap(),
         "queues-enum" => serde_json::to_value(queues::enumerate(ctx.cur_index)).unwrap(),
+        "entropy-c12" => serde_json::to_value(entropy::generate(seed, "C12", ctx.tier == "thorough")).unwrap(),
+        "entropy-c13" => serde_json::to_value(entropy::generate(seed, "C13", ctx.tier == "thorough")).unwrap(),
         _ => panic!("unknown engine {}", engine),
     }
 }
